@@ -4,7 +4,7 @@
 //!
 //! init:  zero | one | var:i | parity | majority | thr:k | eq:k | sym:c | default |
 //!        hex:<text> | blocks:<w.w.w> | allfn:<k> | int:<value>   (int: From<u8/u16/u32/u64>, n = 3..6)
-//! op:    not | not_in | flip:i | flip_in:i | swap:i:j | swap_in:i:j | adj:i | adj_in:i |
+//! op:    not | not_in | notop (!a) | notopref (!&a) | flip:i | flip_in:i | swap:i:j | swap_in:i:j | adj:i | adj_in:i |
 //!        cof0:i | cof1:i | fc0:i:<w> (from_cofactors(self, w, i)) | fc1:i:<w> (from_cofactors(w, self, i)) |
 //!        set:m | unset:m | setv:m:b | and:f:<w> | or:f:<w> | xor:f:<w>  (binary form f, second operand w) |
 //!        rand:f:<w> | ror:f:<w> | rxor:f:<w> (self is the second operand) |
@@ -106,6 +106,8 @@ pub fn op_subject<L: Tab>(l: &L, op: &str) -> Result<L, String> {
     let a = |k: usize| -> Result<usize, String> { us(p.get(k).copied().unwrap_or("")) };
     Ok(match p[0] {
         "not" => l.t_not(),
+        "notop" => L::t_unary_form(2, l).0,
+        "notopref" => L::t_unary_form(3, l).0,
         "not_in" => {
             let mut x = l.clone();
             x.t_not_inplace();
@@ -194,7 +196,7 @@ pub fn op_model(t: &TT, op: &str) -> Result<TT, String> {
     let a = |k: usize| -> Result<usize, String> { us(p.get(k).copied().unwrap_or("")) };
     let w = |k: usize| -> Result<TT, String> { TT::from_words(n, &parse_words(p.get(k).copied().unwrap_or(""))?).ok_or_else(|| "operand not well-formed".to_string()) };
     Ok(match p[0] {
-        "not" | "not_in" => t.not(),
+        "not" | "not_in" | "notop" | "notopref" => t.not(),
         "flip" | "flip_in" => t.flip(a(1)?),
         "swap" | "swap_in" => t.swap(a(1)?, a(2)?),
         "adj" | "adj_in" => t.swap(a(1)?, a(1)? + 1),
@@ -235,7 +237,7 @@ pub fn op_model(t: &TT, op: &str) -> Result<TT, String> {
 /// The operation alphabet from a state of size n: all index arguments; binary operations and
 /// from_cofactors with every operand of `operands`; bit mutators on the positions `bits`.
 pub fn op_alphabet(n: usize, operands: &[TT], bits: &[usize], binary_forms: &[usize]) -> Vec<String> {
-    let mut v: Vec<String> = vec!["not".into(), "not_in".into(), "next".into(), "reparse".into(), "conv".into()];
+    let mut v: Vec<String> = vec!["not".into(), "not_in".into(), "notop".into(), "notopref".into(), "next".into(), "reparse".into(), "conv".into()];
     for i in 0..n {
         v.push(format!("flip:{}", i));
         v.push(format!("flip_in:{}", i));
